@@ -17,7 +17,7 @@ def run(F, rep):
     rep.engines.update(["E2-BV", "E2-DT", "E1"])
     rep.run(common.kmer_floor, F, rep)
     rep.run(lemmas.dnastring_lemmas, F, rep, which={"get_kmer", "get"})
-    rep.run(lemmas.lmer_lemmas, F, rep, which={"get_kmer", "get"})
+    rep.run(lemmas.lmer_lemmas, F, rep, which={"get_kmer", "get", "new"})      # "new": the length every accessor and iterator relies on, for every capacity
     rep.run(common.run_kmer_lemmas, F, rep, {"slice", "ext", "get"})
     rep.run(dt_seq.kmer_iter_tables, F, rep, "C13.2")
     rep.run(dt_seq.accessor_tables, F, rep, "C13.4")
